@@ -229,6 +229,8 @@ func stateListOrArrayT(s *scanner, c byte) int {
 		s.step = stateArrayT
 		return scanListType
 	}
+	// not an array prefix: an ordinary unquoted string that happens to start with B, I or L
+	s.step = stateInUnquotedString
 	return stateInUnquotedString(s, c)
 }
 
